@@ -1,6 +1,118 @@
 package resume
 
-import "gitee.com/Trisia/gotlcp/dtlcp"
+import (
+	"net"
+	"time"
 
-// DTLCP is filled in by dtlcp_impl (placeholder until the DTLCP runner is written).
-var DTLCP = Ops[*dtlcp.SessionState]{Name: "dtlcp"}
+	"gitee.com/Trisia/gotlcp/dtlcp"
+	"verifharness/internal/hx"
+	"verifharness/internal/pair"
+	"verifharness/internal/pki"
+)
+
+// DTLCPTimeout is the initial retransmission timeout used for DTLCP histories (short: the
+// in-memory network has no latency).
+var DTLCPTimeout = 40 * time.Millisecond
+
+// dtlcpHasCCS reports whether a datagram (whole DTLCP records, 13-byte headers) contains a
+// ChangeCipherSpec record.
+func dtlcpHasCCS(data []byte) bool {
+	for i := 0; i+13 <= len(data); {
+		if data[i] == 20 {
+			return true
+		}
+		i += 13 + (int(data[i+11])<<8 | int(data[i+12]))
+	}
+	return false
+}
+
+// dtlcpHello returns the session id of the last datagram among ds whose first record is a
+// handshake record carrying a message of type typ (1 ClientHello, 2 ServerHello).
+func dtlcpHello(ds [][]byte, typ byte) ([]byte, bool) {
+	var id []byte
+	found := false
+	for _, d := range ds {
+		if len(d) > 25 && d[0] == 22 && d[13] == typ {
+			if x, ok := helloSessionID(d[25:]); ok {
+				id, found = x, true
+			}
+		}
+	}
+	return id, found
+}
+
+func dtlcpAddr(d int) *net.UDPAddr { return &net.UDPAddr{IP: net.IPv4(127, 0, 0, 1), Port: 20000 + d} }
+
+func dtlcpHandshake(dst int, server int, cs, ss []uint16, ccache, scache Cache[*dtlcp.SessionState], fault string, seed uint64) HS {
+	s := pki.Std()
+	rnd := hx.NewRand(seed)
+	ccfg := &dtlcp.Config{RootCAs: s.Root.Pool, ServerName: "test.example", Time: pki.NowFn, CipherSuites: cs,
+		Rand: detReader{hx.NewRand(rnd.U64())}, InitialRetransmitTimeout: DTLCPTimeout, MaxRetransmitTimeout: 4 * DTLCPTimeout}
+	sig, enc := s.SrvSig, s.SrvEnc
+	if server == 1 {
+		sig, enc = s.Srv2Sig, s.Srv2Enc
+	}
+	scfg := &dtlcp.Config{Certificates: []dtlcp.Certificate{pair.DCert(sig), pair.DCert(enc)}, Time: pki.NowFn, CipherSuites: ss,
+		Rand: detReader{hx.NewRand(rnd.U64())}, InitialRetransmitTimeout: DTLCPTimeout, MaxRetransmitTimeout: 4 * DTLCPTimeout}
+	if ccache != nil {
+		ccfg.SessionCache = ccache
+	}
+	if scache != nil {
+		scfg.SessionCache = scache
+	}
+	c, sv, ce, se, r := pair.DTLCP(ccfg, scfg, func(ce, se *pair.PacketEnd) {
+		se.SetLocalAddr(dtlcpAddr(dst))
+		damage := func(_ int, data []byte) [][]byte {
+			if dtlcpHasCCS(data) {
+				return [][]byte{flipLast(data)}
+			}
+			return [][]byte{data}
+		}
+		switch fault {
+		case "sf":
+			se.OnSend = damage
+		case "cf":
+			ce.OnSend = damage
+		}
+	})
+	h := HS{CErr: r.CErr, SErr: r.SErr}
+	if r.TimedOut {
+		h.CErr, h.SErr = pair.ErrTimeout, pair.ErrTimeout
+	}
+	h.Off, _ = dtlcpHello(ce.SentCopy(), 1)
+	h.Ret, h.SawServerHello = dtlcpHello(se.SentCopy(), 2)
+	cst, sst := c.ConnectionState(), sv.ConnectionState()
+	h.CResumed, h.SResumed = cst.DidResume, sst.DidResume
+	h.Suite, h.SSuite = cst.CipherSuite, sst.CipherSuite
+	if len(cst.PeerCertificates) > 0 {
+		h.PeerDER = cst.PeerCertificates[0].Raw
+	}
+	cf, sf := dtlcp.VerifFinished(c)
+	h.Fin = append(cf, sf...)
+	ce.Close()
+	se.Close()
+	return h
+}
+
+// DTLCP is the DTLCP instance of the per-stack operations.
+var DTLCP = Ops[*dtlcp.SessionState]{
+	Name:    "dtlcp",
+	Version: dtlcp.VersionTLCP,
+	NewLRU:  func(capacity int) Cache[*dtlcp.SessionState] { return dtlcp.NewLRUSessionCache(capacity) },
+	LRULen:  func(c Cache[*dtlcp.SessionState]) (int, int) { return dtlcp.VerifLRULen(c) },
+	Wiped:   dtlcp.VerifSessionWiped,
+	Info: func(s *dtlcp.SessionState) (id, ms []byte) {
+		id, _, _, ms, _ = dtlcp.VerifSessionInfo(s)
+		return
+	},
+	Make: func(id []byte, suite uint16, ms []byte) *dtlcp.SessionState {
+		return dtlcp.VerifMakeSession(id, dtlcp.VersionTLCP, suite, ms)
+	},
+	MakePeer: func(id []byte, suite uint16, ms []byte, server int) *dtlcp.SessionState {
+		return dtlcp.VerifMakeSessionWithPeer(id, dtlcp.VersionTLCP, suite, ms, ServerCerts(server))
+	},
+	Clone:     dtlcp.VerifCloneSession,
+	DstKey:    func(d int) string { return dtlcpAddr(d).String() },
+	Handshake: dtlcpHandshake,
+	Identity:  identity,
+}
